@@ -34,6 +34,11 @@ type Cfg struct {
 	// over everything reachable from the returned rules (maps and pointers in them included). The rules in force
 	// and what the getters report next are unaffected.
 	Scribble bool `json:"scribble,omitempty"`
+	// Verdicts: a scripted scenario. A slow-request-ratio breaker with a low limit sees requests that are slow under
+	// it (too few to trip); the rule is replaced by one with a limit above their duration; as many requests of the
+	// same duration follow. No request was slow under the rule in force: the breaker stays closed.
+	// [limit before ms, limit after ms, requests per half, duration ms, per-resource load (0/1)]
+	Verdicts []int64 `json:"verdicts,omitempty"`
 }
 
 const nRes = 3
@@ -76,6 +81,10 @@ func (P) Gen(rng *sim.Rng, tier string) *harness.Case {
 		a := int64([]int{1, 2, 5, 100}[rng.Intn(4)])
 		b := int64([]int{1, 2, 5, 100}[rng.Intn(4)])
 		cfg.Budget = []int64{a, int64(rng.Range(0, int(a)+1)), b, int64(rng.Range(1, 12)), int64(rng.Intn(2))}
+	}
+	if len(cfg.Budget) == 0 && rng.Chance(0.03) {
+		d := int64(rng.Range(20, 60))
+		cfg.Verdicts = []int64{int64(rng.Range(1, int(d)-1)), d + int64(rng.Range(0, 500)), int64(rng.Range(2, 10)), d, int64(rng.Intn(2))}
 	}
 	n := rng.Range(6, 24)
 	for i := 0; i < n; i++ {
@@ -406,6 +415,10 @@ func (P) Exec(c *harness.Case) *harness.Outcome {
 	env := harness.Reset(cfg.Origin*1e6, harness.DefaultGeometry())
 	if len(cfg.Budget) == 5 {
 		execBudget(&cfg, o)
+		return o
+	}
+	if len(cfg.Verdicts) == 5 {
+		execVerdicts(&cfg, o, env)
 		return o
 	}
 	model := make([]rset, rs.NumModules)
@@ -925,6 +938,64 @@ func execBudget(cfg *Cfg, o *harness.Outcome) {
 func thresholdInForce(res string) int64 {
 	for _, r := range hotspot.GetRulesOfResource(res) {
 		return r.Threshold
+	}
+	return -1
+}
+
+// execVerdicts: see Cfg.Verdicts. Everything happens inside one statistic window of 10 s (one bucket).
+func execVerdicts(cfg *Cfg, o *harness.Outcome, env *harness.Env) {
+	a, b, n, d, perRes := cfg.Verdicts[0], cfg.Verdicts[1], cfg.Verdicts[2], cfg.Verdicts[3], cfg.Verdicts[4] == 1
+	if a <= 0 || a >= d || b < d || n <= 0 || n > 20 || d > 200 {
+		return
+	}
+	const resName = "res-0"
+	// start the scenario at the beginning of a window
+	now := env.Clock.NowMs()
+	env.Clock.AdvanceMs(10000 - now%10000)
+	load := func(limit int64) {
+		harness.Call(o, "C13.load-panicked", 0, func() {
+			r := []*cb.Rule{{Id: "verdicts", Resource: resName, Strategy: cb.SlowRequestRatio, MaxAllowedRtMs: uint64(limit), Threshold: 0.5, MinRequestAmount: uint64(2 * n), StatIntervalMs: 10000, RetryTimeoutMs: 5000}}
+			if perRes {
+				_, _ = cb.LoadRulesOfResource(resName, r)
+			} else {
+				_, _ = cb.LoadRules(r)
+			}
+		})
+	}
+	serve := func(k int64) (rejected int64) {
+		for i := int64(0); i < k && !o.Failed(); i++ {
+			harness.Call(o, "C13.probe-panicked", 0, func() {
+				e, _ := sentinel.Entry(resName, harness.EntryOpts(1, false, nil, nil, nil)...)
+				if e == nil {
+					rejected++
+					return
+				}
+				env.Clock.AdvanceMs(uint64(d))
+				o.SimMs += uint64(d)
+				e.Exit()
+			})
+		}
+		return
+	}
+	load(a)
+	if serve(n) != 0 || o.Failed() {
+		return
+	}
+	load(b)
+	rej := serve(n + 1)
+	if o.Failed() {
+		return
+	}
+	o.Nontrivial = true
+	o.Probe("breaker_limit_raised_inside_its_window")
+	if rej != 0 {
+		o.Fail("C13.replaced-rule-still-decides", 0, "slow-request-ratio breaker (ratio 0.5, minimum %d requests, window 10 s) with a limit of %d ms served %d requests of %d ms; it was replaced by a rule with a limit of %d ms (getter reports %d) and %d more requests of %d ms followed, none of them slow under the rule in force: %d of them were rejected - the breaker opened on the verdicts the replaced rule had given", 2*n, a, n, d, b, limitInForce(resName), n+1, d, rej)
+	}
+}
+
+func limitInForce(res string) int64 {
+	for _, r := range cb.GetRulesOfResource(res) {
+		return int64(r.MaxAllowedRtMs)
 	}
 	return -1
 }
